@@ -261,12 +261,13 @@ class SymFloat(Proxy):
 
 class SRef(Proxy):
     """Symbolic reference to one of an enumerated set of real objects (value read out of a SymDict)."""
-    __slots__ = ('e', 'universe')
+    __slots__ = ('e', 'universe', 'resolved')
     # universe: ObjUniverse
 
     def __init__(self, e, universe):
         self.e = e
         self.universe = universe
+        self.resolved = None          # the real object, once the path has fixed which one it is
 
     def vf_is(self, other):
         if isinstance(other, SRef):
@@ -289,8 +290,11 @@ class SRef(Proxy):
 
     def resolve(self):
         """Fork over the universe and return the real object."""
+        if self.resolved is not None:
+            return self.resolved
         for obj, code in self.universe.items():
             if decide(self.e == code):
+                self.resolved = obj
                 return obj
         raise Unsupported('SRef outside its universe')
 
@@ -298,6 +302,15 @@ class SRef(Proxy):
         if name.startswith('__'):
             raise AttributeError(name)
         return getattr(self.resolve(), name)
+
+    @property
+    def __class__(self):
+        # `obj.__class__` in the code under contract means the class of the referenced real object
+        return type(self.resolve())
+
+    @__class__.setter
+    def __class__(self, value):
+        self.resolve().__class__ = value
 
     __hash__ = Proxy.__hash__
 
@@ -308,10 +321,15 @@ class ObjUniverse(object):
     def __init__(self, objs):
         self.objs = list(objs)
 
+    open = False      # an open universe admits new real objects (created by the code under contract) with fresh codes
+
     def code_of(self, o):
         for i, x in enumerate(self.objs):
             if x is o:
                 return z3.IntVal(i + 1)
+        if self.open and not isinstance(o, Proxy) and o is not None:
+            self.objs.append(o)
+            return z3.IntVal(len(self.objs))
         return None
 
     def items(self):
@@ -368,7 +386,11 @@ class SymDict(Proxy):
         return ts
 
     def _sel(self, idx):
-        return z3.Select(self.arr, *idx)
+        t = z3.Select(self.arr, *idx)
+        from .explore import Run
+        if Run.cur is not None:
+            Run.cur.add_axiom(self.universe.constraint(t))      # a stored value is absent or one of the universe's objects
+        return t
 
     def _wrap(self, code_term):
         return SRef(code_term, self.universe)
